@@ -61,6 +61,7 @@ class Program:
             self.short.setdefault(strip_generics(k), []).append(k)
         self._discover_accessors()
         self._build_callgraph()
+        self._bind_ref_params()
         self._compute_modsets()
 
     # ------------------------------------------------------------------ lookup
@@ -273,6 +274,40 @@ class Program:
                         self.calls_out[k].append((cp, s))
                         self.calls_in.setdefault(cp, []).append(s)
 
+    def _bind_ref_params(self):
+        """A private function that receives `&mut self.some_field` (a scalar field by reference) at every one of its
+        call sites works on that field: inside it the parameter is read and written as the field. (Arises when a
+        method is turned into a free function that takes the pieces it needs.)"""
+        self.param_field = {}
+        for k, f in self.facts.fns.items():
+            if f.is_closure or f.crate != "raft" or f.vis == "Public":
+                continue
+            n = f.body.arg_count
+            cands = [i for i in range(1, n + 1) if re.match(r"^&(mut )?(u64|usize|bool|u32|i64)$", f.body.local_ty(i) or "")]
+            if not cands:
+                continue
+            sites = self.calls_in.get(strip_generics(k), [])
+            sites = [s for s in sites if s.kind == "call"]
+            if not sites:
+                continue
+            for i in cands:
+                keys = set()
+                for s in sites:
+                    args = s.data["term"]["args"]
+                    if i - 1 >= len(args):
+                        keys.add(None)
+                        continue
+                    e = self.an[s.fn.key].expr_operand(args[i - 1], s.at)
+                    keys.add(e[2] if e[0] == "field" and isinstance(e[2], str) else None)
+                if len(keys) == 1 and None not in keys:
+                    key = keys.pop()
+                    a = self.an[k]
+                    if not hasattr(a, "param_alias"):
+                        a.param_alias = {}
+                    a.param_alias[i] = ("field", ("bound", key.split(".")[0]), key)
+                    a._expr_cache.clear()
+                    self.param_field[(k, i)] = key
+
     def callees(self, key):
         out = set()
         for sp, s in self.calls_out.get(key, []):
@@ -322,6 +357,9 @@ class Program:
                 fk = last_field_key(pl)
                 if fk is not None:
                     out.append((Site(f, bi, si, "write", {"stmt": st, "field": fk}), fk, pl))
+                elif pl["p"] == ["*"] and (key, pl["l"]) in getattr(self, "param_field", {}):
+                    fk2 = self.param_field[(key, pl["l"])]
+                    out.append((Site(f, bi, si, "write", {"stmt": st, "field": fk2}), fk2, pl))
                 elif pl["p"] and pl["p"][-1] == "*":
                     # `*x = v`: overwrite of a whole object
                     adt = self._place_adt(f, pl)
